@@ -44,6 +44,9 @@ NoActM ==
    runInst |-> 0, runOpen |-> FALSE, runDisabled |-> FALSE, expectRun |-> FALSE,
    nestOp |-> 0,                   \* in-flight nested op of the hook in progress
    jl |-> <<>>,
+   hdone |-> 0,                    \* handler exits (any outcome)
+   slowDone |-> FALSE,             \* some handler demonstrably took >= SlowUs
+   lastCnt |-> 0,                  \* last message_count seen
    tellPending |-> 0]              \* tell handler finished, on_tell_result not seen yet (message id)
 
 NoOpM == [own |-> "", kind |-> "", a |-> "", m |-> 0, d |-> 0, stNow |-> 0,
@@ -263,11 +266,13 @@ OnHExit(mon, ev) ==
   ELSE IF ev.hook = "handler" THEN
        LET M == MsgOf(mon, ev.m)
            isTell == OpOf(mon, M.op).kind \in TellKindsM
-           m1 == IF ev.out = "ok"
+           ok == ev.out \in {"ok", "slow"}
+           m1 == IF ok
                    THEN UpdM(mon, ev.m, [replied |-> TRUE, rv |-> ev.v, repNow |-> mon.now]) ELSE mon
            m2 == UpdA(m1, a, [inHook |-> "", panicIn |-> pan,
-                              jl |-> IF ev.out = "ok" THEN Append(A.jl, "h") ELSE A.jl,
-                              tellPending |-> IF ev.out = "ok" /\ isTell THEN ev.m ELSE 0])
+                              jl |-> IF ok THEN Append(A.jl, "h") ELSE A.jl,
+                              hdone |-> A.hdone + 1, slowDone |-> A.slowDone \/ ev.out = "slow",
+                              tellPending |-> IF ok /\ isTell THEN ev.m ELSE 0])
        IN  AddBad([m2 EXCEPT !.crashed = crashed], b0)
   ELSE \* stop
        AddBad([UpdA(mon, a, [stopOut |-> ev.out, inHook |-> "", panicIn |-> pan,
@@ -408,7 +413,11 @@ OnSample(mon, ev) ==
                   "C09", "accepted messages do not occupy slots")
            \cup B(ev.dlc >= 0 /\ ev.dlc # mon.dlCount, "C13", "dead-letter counter differs from the number of dead letters")
            \cup B(ev.strong < A.userStrong, "C07", "fewer strong references than live strong handles")
-  IN  AddBad(UpdA(mon, a, [lastMax |-> ev.max, lastAvail |-> ev.avail, lastStrong |-> ev.strong]), b)
+           \* C20: message_count = handlers entered, minus the one still running
+           \cup B(ev.mcnt >= 0 /\ (ev.mcnt > Len(A.order) \/ ev.mcnt < A.hdone), "C20", "message_count differs from the number of handled messages")
+           \cup B(ev.mcnt >= 0 /\ ev.mcnt < A.lastCnt, "C20", "message_count decreased")
+  IN  AddBad(UpdA(mon, a, [lastMax |-> ev.max, lastAvail |-> ev.avail, lastStrong |-> ev.strong,
+                           lastCnt |-> IF ev.mcnt >= 0 THEN ev.mcnt ELSE A.lastCnt]), b)
 
 OnQuiescent(mon, ev) ==
   LET pend == RangeOf(ev.pending)
@@ -429,6 +438,18 @@ OnQuiescent(mon, ev) ==
       b6 == UNION {B(mon.act[a].expectRun /\ ~mon.act[a].joined, "C08", "on_run not polled again after Ok(true)")
                    : a \in DOMAIN mon.act}
   IN  AddBad(mon, b1 \cup b2 \cup b3 \cup b4 \cup b5 \cup b6)
+
+SlowUs == 3000   \* a handler told to be slow holds its thread for at least this long (wall clock, microseconds)
+
+\* C20: metrics read through a handle at quiescence
+OnMetrics(mon, ev) ==
+  LET A == ActOf(mon, ev.a)
+      b == B(A.inHook # "handler" /\ ev.cnt # Len(A.order), "C20", "message_count differs from the number of handled messages")
+           \cup B(ev.avg > ev.max, "C20", "avg_processing_time exceeds max_processing_time")
+           \cup B(A.slowDone /\ ev.max < SlowUs, "C20", "max_processing_time below the time a handler demonstrably took")
+           \cup B(ev.cnt # ev.scnt \/ ev.avg # ev.savg \/ ev.max # ev.smax, "C20", "snapshot disagrees with the accessors")
+           \cup B(ev.cnt = 0 /\ (ev.avg # 0 \/ ev.max # 0), "C20", "processing times without messages")
+  IN  AddBad(mon, b)
 
 MonStep(mon, ev) ==
   CASE ev.e = "Reset"      -> OnReset(mon, ev)
@@ -455,6 +476,7 @@ MonStep(mon, ev) ==
     [] ev.e = "Ident"      -> OnIdent(mon, ev)
     [] ev.e = "Sample"     -> OnSample(mon, ev)
     [] ev.e = "Quiescent"  -> OnQuiescent(mon, ev)
+    [] ev.e = "Metrics"    -> OnMetrics(mon, ev)
     [] OTHER               -> mon      \* Inapplicable, ErrLog, ...
 
 RECURSIVE MonFold(_, _)
@@ -479,5 +501,6 @@ InvC13(mon) == Holds(mon, "C13")
 InvC14(mon) == Holds(mon, "C14")
 InvC15(mon) == Holds(mon, "C15")
 InvC19(mon) == Holds(mon, "C19")
+InvC20(mon) == Holds(mon, "C20")
 InvAll(mon) == mon.bad = {}
 =============================================================================
